@@ -94,9 +94,13 @@ namespace vf {
 const char* harness_name() { return kName; }
 
 void run_case(Tape& t, Ctx& ctx) {
-  // ------------------------------------------------------------------------------------------------ header
+  // Tape layout (compact, so that short tapes reach every part): family | palette | value mode | operations | runs |
+  // labels, construction route | per-simplex value draws.
   unsigned fam = unsigned(t.weighted({6, 3, 2, 2, 2, 1, 1}));
   ctx.hit(std::string("family:") + kFamilies[fam].name);
+  c02::Palette pal = c02::decode_palette(t, 8, true);
+  unsigned vmode = kStoresValues ? unsigned(t.weighted({2, 4, 2, 1, 7})) : 0;
+  uint64_t vseed = (vmode == 4) ? t.u16() : 0;
   static const unsigned kNops[] = {0, 1, 2, 3, 4, 6, 10, 20};
   unsigned nops = kNops[t.weighted({1, 1, 2, 3, 3, 3, 2, 1})];
 
@@ -111,21 +115,24 @@ void run_case(Tape& t, Ctx& ctx) {
   };
   std::ostringstream ops;
   unsigned cones = 0;
-  for (unsigned step = 0; step < nops; ++step) {
-    unsigned op = unsigned(t.weighted({10, 2, 1}));
-    if (op == 0) {  // a random simplex on old vertices and at most one new one
-      unsigned k = 1 + unsigned(t.weighted({2, 5, 6, 3, 1}));
-      std::vector<Vertex> vs;
-      Vertex pool = std::min<Vertex>(nv + 1, max_new);
-      if (pool < 1) pool = 1;
-      for (unsigned i = 0; i < k; ++i) vs.push_back(Vertex(t.below(uint32_t(pool))));
+  for (unsigned step = 0; step < nops; ++step) {  // 3 bytes per operation
+    unsigned o = t.u8();
+    unsigned x = t.u16();
+    unsigned op = (o % 13 < 10) ? 0 : (o % 13 < 12) ? 1 : 2;
+    if (op == 0) {  // a random simplex (1-4 vertices) on old vertices and at most one new one
+      static const unsigned kSize[] = {2, 3, 1, 3, 4, 2};
+      unsigned k = kSize[(o / 13) % 6];
+      unsigned pool = unsigned(std::max<Vertex>(1, std::min<Vertex>(nv + 1, max_new)));
+      std::vector<Vertex> vs = {Vertex(x % pool), Vertex((x / pool) % pool), Vertex((x / pool / pool) % pool)};
+      vs.push_back((vs[0] + vs[1] + vs[2]) % Vertex(pool));
+      vs.resize(k);
       Simplex s = ref::make_simplex(vs);
       if (S.size() + (size_t(1) << s.size()) > kMaxSimplices) continue;
       add_closed(s);
       ops << " +" << ref::to_string(s);
     } else if (op == 1) {  // cone with a new apex over a random part of the complex
-      unsigned keep_num = 4 - t.below(4);  // each simplex taken with probability keep_num/4 (zero tape: everything)
-      uint64_t bits = t.u64();
+      unsigned keep_num = 4 - (o / 13) % 4;  // each simplex taken with probability keep_num/4 (zero: everything)
+      uint64_t bits = c02::expand(x, 0);
       if (S.empty() || cones >= 2 || nv >= max_new + 2) continue;
       if (2 * S.size() + 1 > kMaxSimplices) continue;  // the cone over a closed part at most doubles the complex
       std::vector<Simplex> add;
@@ -141,28 +148,36 @@ void run_case(Tape& t, Ctx& ctx) {
       }
       ++cones;
       for (auto& c : add) add_closed(c);
-      ops << " cone(" << apex << "," << keep_num << "/4," << std::hex << bits << std::dec << ")";
-    } else {  // a higher simplex: 5 or 6 vertices among the first ones
-      unsigned k = 5 + t.below(2);
-      std::vector<Vertex> vs;
-      Vertex pool = std::max<Vertex>(std::min<Vertex>(nv, 8), 6);
-      for (unsigned i = 0; i < k; ++i) vs.push_back(Vertex(t.below(uint32_t(pool))));
-      Simplex s = ref::make_simplex(vs);
+      ops << " cone(" << apex << "," << keep_num << "/4," << x << ")";
+    } else {  // a higher simplex: the first 6-8 vertices without up to three of them (3-6 vertices)
+      unsigned pool = unsigned(std::max<Vertex>(std::min<Vertex>(nv, 8), 6));
+      std::set<Vertex> vs;
+      for (unsigned i = 0; i < pool; ++i) vs.insert(Vertex(i));
+      vs.erase(Vertex(x % pool));
+      vs.erase(Vertex((x / pool) % pool));
+      if ((o / 13) % 2) vs.erase(Vertex((x / pool / pool) % pool));
+      while (vs.size() > 6) vs.erase(std::prev(vs.end()));
+      Simplex s(vs.begin(), vs.end());
       if (S.size() + (size_t(1) << s.size()) > kMaxSimplices) continue;
       add_closed(s);
       ops << " +" << ref::to_string(s);
     }
   }
+  {  // logical vertices 0..n-1 without holes (contiguous option sets demand it; harmless for the others)
+    std::vector<Simplex> all(S.begin(), S.end());
+    S = closure_contiguous(all);
+    nv = 0;
+    for (auto& s : S) nv = std::max(nv, s.back() + 1);
+  }
   // ------------------------------------------------------------------------------------------------ fields, options
-  c02::Palette pal = c02::decode_palette(t, 8, true);
   unsigned nruns = 1 + t.below(3);
   std::vector<c02::RunSpec> runs;
   std::vector<bool> run_on_hasse;
   for (unsigned r = 0; r < nruns; ++r) {
-    runs.push_back(c02::decode_run(t, pal, kFamilies[fam].prime, ctx));
-    run_on_hasse.push_back(kHasse && t.below(3) == 1);
+    bool second = false;
+    runs.push_back(c02::decode_run(t, pal, kFamilies[fam].prime, ctx, &second));
+    run_on_hasse.push_back(kHasse && second);
   }
-  unsigned vmode = kStoresValues ? unsigned(t.weighted({2, 6, 3, 2})) : 0;
   unsigned lmode = kContiguous ? 0 : unsigned(t.weighted({3, 2, 2, 1}));
   bool route_b = t.below(4) == 1;
   bool explicit_init = t.flip();
@@ -188,6 +203,9 @@ void run_case(Tape& t, Ctx& ctx) {
           v = -c02::kInf;
           for (auto x : s) v = std::max(v, vval[x]);
         }
+      } else if (vmode == 4) {  // like mode 1 with the draws expanded from 4 tape bytes
+        v = pal.v[c02::expand(vseed, val.size()) % pal.v.size()];
+        for (auto& f : ref::facets(s)) v = std::max(v, val[f]);
       } else if (vmode == 3) {  // by dimension: the k-skeleton enters at the k-th palette value
         v = pal.v[std::min(pal.v.size() - 1, s.size() - 1)];
       }
@@ -204,7 +222,7 @@ void run_case(Tape& t, Ctx& ctx) {
     if (lmode == 3) L = 32000 - 3 * long(i);                         // near the top of short
     label.push_back(L);
   }
-  ctx.desc << "family=" << kFamilies[fam].name << " ops:" << ops.str() << "\nvalues mode " << vmode << " palette";
+  ctx.desc << "family=" << kFamilies[fam].name << " ops:" << ops.str() << "\nvalues mode " << vmode << " seed " << vseed << " palette";
   for (double v : pal.v) ctx.desc << " " << c02::fmt(v);
   ctx.desc << " labels mode " << lmode << "\nsimplices (" << S.size() << "):";
   for (auto& kv : val) ctx.desc << " " << ref::to_string(kv.first) << ":" << c02::fmt(kv.second);
@@ -257,6 +275,9 @@ void run_case(Tape& t, Ctx& ctx) {
   std::vector<c02::Z> tp = {2, 3};
   if (kFamilies[fam].prime == 5) tp.push_back(5);
   c02::classify(e, ctx, tp);
+  if (ctx.nontrivial) ctx.hit(std::string("nontrivial:") + kFamilies[fam].name);
+  ctx.hit("vmode" + std::to_string(vmode) + (ctx.nontrivial ? ":nontrivial" : ":trivial"));
+  ctx.hit("palette-size-" + std::to_string(pal.v.size()));
   if (e.topdim >= 3) ctx.hit("dimension>=3");
   if (S.empty()) ctx.hit("empty-complex");
 
